@@ -263,6 +263,30 @@ func (d *Disk) apply(f *Fault, accessed string) error {
 	return nil
 }
 
+// MaterialiseAt writes a project below dir (used for runs with several projects).
+func MaterialiseAt(dir string, files []GenFile) error {
+	os.RemoveAll(dir)
+	if err := os.MkdirAll(dir, 0o755); err != nil {
+		return err
+	}
+	for _, f := range files {
+		p := filepath.Join(dir, f.Path)
+		if err := os.MkdirAll(filepath.Dir(p), 0o755); err != nil {
+			return err
+		}
+		if strings.HasSuffix(f.Path, "/") {
+			if err := os.MkdirAll(p, 0o755); err != nil {
+				return err
+			}
+			continue
+		}
+		if err := os.WriteFile(p, f.Data, 0o644); err != nil {
+			return err
+		}
+	}
+	return nil
+}
+
 // Materialise writes the project and the decoys below the current directory.
 func Materialise(files []GenFile) error {
 	os.RemoveAll("a")
